@@ -609,6 +609,11 @@ extern const MPT_STRUCT(named_traits) *mpt_type_metatype_add(const char *name)
 			errno = EINVAL;
 			return 0;
 		}
+		/* name (or short form) is used by interface */
+		if (mpt_named_traits(name, nlen - 1) || mpt_named_traits(name, -1)) {
+			errno = EINVAL;
+			return 0;
+		}
 		while (ext) {
 			int i, max;
 			for (i = 0, max = ext->used; i < max; i++) {
@@ -692,6 +697,11 @@ extern const MPT_STRUCT(named_traits) *mpt_type_interface_add(const char *name)
 		}
 		nlen = strlen(name);
 		if (nlen++ < 4) {
+			errno = EINVAL;
+			return 0;
+		}
+		/* name (or short form) is used by metatype */
+		if (mpt_named_traits(name, nlen - 1) || mpt_named_traits(name, -1)) {
 			errno = EINVAL;
 			return 0;
 		}
